@@ -38,6 +38,10 @@ TEXT = {
          "Coq proof (composition of the sender and receiver closed forms) + differential correspondence"),
  "C02": ("Theorems for every PDU up to the 16-bit total length and every schedule of output buffers (induction over the schedule and over the produced train, no bound): the sender's run produces a first fragment and a continuation train; fed in order to any well-formed receiver (free buffer or occupied slot, storage >= PDU, label resolvable) every packet but the last yields FragmentedPkt with the PDU's label and protocol type, the last yields CompletedPkt with the PDU bytes, length, protocol type and label, each consuming exactly the reported length; buffers >= 13 bytes are never rejected and enough of them complete; the effect of each buffer is a function of its size (c02_schedule). crc is any function with 32-bit results.",
          "Coq proof (slot invariant by induction over the fragment train; schedule induction) + differential correspondence"),
+ "C10": ("Theorems: for every well-framed packet (own length = GSE length + 2, per-kind minimum sizes, extension chain inside the packet, first fragment announcing more than it carries), every receiver state and every tail, decap(packet ++ tail) = decap(packet) -- same new state, same status or error, whatever the outcome -- and it consumes exactly the packet length; walking a frame of well-framed packets followed by m zero bytes (m = 0 or m >= 2) by consumed lengths yields the outcomes of the packets decapsulated alone in sequence, then Padding consuming m (induction over the packet list, any number of packets); every packet emitted by encap / encap_frag is well framed for every manager and never reads as padding. Extension packets of encap_ext: correspondence + twin-case oracle (frame walk vs packets alone).",
+         "Coq proof (tail independence from the closed form of decap; induction over the packet list of a frame) + differential correspondence + twin-case oracle"),
+ "C19": ("Theorems: for every start/complete packet produced by encap followed by any tail, the peek function returns the label as written (3-byte, 6-byte, broadcast) or the re-use error when the label was replaced; for every packet produced by encap_frag it returns the fragment id, which is the id the closed form of decap looks up. The lemma peek_start is stated for any 2-byte value in the protocol-type position and any bytes after the label, so it covers extension packets; encap_ext packets themselves are decided by correspondence + oracle until the encap_ext closed form is proved.",
+         "Coq proof (evaluation of the peek model on the packet builders) + differential correspondence"),
 }
 
 def main():
